@@ -139,9 +139,10 @@ fn run_job(f: &[&str]) -> String {
             format!("OK\t{}", s.join(","))
         }
         // analyze <category> <pattern> <path> [file_no] -> line,line  (public per-file entry point)
-        "analyze" => {
+        // analyze_raw: as analyze, but the text goes to analyze_for_* whatever the parser thinks of it (a panic is reported by the caller)
+        "analyze" | "analyze_raw" => {
             let src = std::fs::read_to_string(f[3]).unwrap();
-            if solang_parser::parse(&src, 0).is_err() {
+            if f[0] == "analyze" && solang_parser::parse(&src, 0).is_err() {
                 return "PARSE_ERROR".to_string();
             }
             let file_no: usize = if f.len() > 4 { f[4].parse().unwrap() } else { 0 };
